@@ -203,7 +203,10 @@ func dustScenario(a dustArg) (*scenarioResult, error) {
 func dustRuns(run *core.Run, prop string) []ledgerRun {
 	args := []dustArg{{Seed: run.Seed, Amounts: [2]int64{1, 0}, Move: 1}, {Seed: run.Seed, Amounts: [2]int64{1, 1}, Move: 0}, {Seed: run.Seed, Amounts: [2]int64{3, 0}, Move: 2},
 		{Kind: "sentinel-late-revoke", Seed: run.Seed}, {Kind: "revoked-pillar", Seed: run.Seed}, {Kind: "liquidity-first-stake", Seed: run.Seed}}
-	if run.Thorough() {
+	if prop == "C10" {
+		args = args[3:5] // the scenarios with a release of collateral in them
+	}
+	if run.Thorough() && prop != "C10" {
 		args = append(args, dustArg{Seed: run.Seed, Amounts: [2]int64{2, 1}, Move: 2}, dustArg{Seed: run.Seed, Amounts: [2]int64{1, 0}, Move: 0}, dustArg{Seed: run.Seed, Amounts: [2]int64{100000000, 1}, Move: 99999999})
 	}
 	outs := make([]scenarioResult, len(args))
@@ -297,10 +300,15 @@ func sentinelLateRevoke(a dustArg) (*scenarioResult, error) {
 	if err := call("revoke", owners[1], types.ZeroTokenStandard, big.NewInt(0), definition.ABISentinel.PackMethodPanic(definition.RevokeSentinelMethodName)); err != nil {
 		return nil, err
 	}
+	revokedAt := p.Height()
 	var perr error
 	for i := 0; i < walk.EpochMomentums+2*walk.UpdateMomentums+10; i++ {
 		if perr = p.Produce(0); perr != nil {
 			break
+		}
+		// "never twice": the release is asked for again, in the window that is still open and one period later
+		if d := p.Height() - revokedAt; d == 2 || d == uint64(constants.SentinelLockTimeWindow+constants.SentinelRevokeTimeWindow)/10 {
+			call("revoke again", owners[1], types.ZeroTokenStandard, big.NewInt(0), definition.ABISentinel.PackMethodPanic(definition.RevokeSentinelMethodName))
 		}
 	}
 	if perr != nil {
@@ -436,6 +444,16 @@ func revokedPillar(a dustArg) (*scenarioResult, error) {
 	if info, _ = definition.GetPillarInfo(st(), g.Pillar4Name); info != nil && info.RevokeTime == 0 {
 		return nil, fmt.Errorf("revoked-pillar scenario: the revocation did not go through")
 	}
+	// "never twice": the release is asked for again, in the window that is still open and in every later one
+	again := func() {
+		call("revoke again", types.ZeroTokenStandard, big.NewInt(0), definition.ABIPillars.PackMethodPanic(definition.RevokeMethodName, g.Pillar4Name))
+	}
+	again()
+	windowOpen := func() bool {
+		t := p.Frontier().Timestamp.Unix()
+		return (t-info.RegistrationTime)%(constants.PillarEpochLockTime+constants.PillarEpochRevokeTime) >= constants.PillarEpochLockTime+10
+	}
+	askedInWindow := true
 	tickNow := func() int64 {
 		return int64(p.Cons.FrontierPillarReader().EpochTicker().ToTick(*p.Frontier().Timestamp))
 	}
@@ -444,6 +462,12 @@ func revokedPillar(a dustArg) (*scenarioResult, error) {
 	for i := 0; i < 5*epochM && (tickNow() < revokedIn+3 || i%epochM < 2*walk.UpdateMomentums); i++ {
 		if perr = p.Produce(0); perr != nil {
 			break
+		}
+		if open := windowOpen(); open && !askedInWindow {
+			again()
+			askedInWindow = true
+		} else if !open {
+			askedInWindow = false
 		}
 		if tickNow() >= revokedIn+3 && int(p.Height())%epochM > 2*walk.UpdateMomentums+5 {
 			break
